@@ -509,6 +509,77 @@ def formats_to_fstrings(fn):
     return _set_parents(fn)
 
 
+def ifexp_assignments_to_if(fn):
+    """in place: `x = a if c else b`  ->  if c: x = a  else: x = b   (so that path enumeration sees the decision)"""
+
+    def do_block(stmts):
+        out = []
+        for st in stmts:
+            for fld in ("body", "orelse", "finalbody"):
+                sub = getattr(st, fld, None)
+                if isinstance(sub, list) and sub and isinstance(sub[0], ast.stmt) and not isinstance(st, (ast.FunctionDef, ast.ClassDef)):
+                    setattr(st, fld, do_block(sub))
+            for h in getattr(st, "handlers", []) or []:
+                h.body = do_block(h.body)
+            tgt = val = None
+            if isinstance(st, ast.Assign) and len(st.targets) == 1 and isinstance(st.value, ast.IfExp):
+                tgt, val = st.targets[0], st.value
+            elif isinstance(st, ast.AnnAssign) and isinstance(st.value, ast.IfExp):
+                tgt, val = st.target, st.value
+            if tgt is not None and isinstance(tgt, ast.Name):
+                a = ast.copy_location(ast.Assign(targets=[ast.Name(id=tgt.id, ctx=ast.Store())], value=val.body), st)
+                b = ast.copy_location(ast.Assign(targets=[ast.Name(id=tgt.id, ctx=ast.Store())], value=val.orelse), st)
+                out.append(ast.copy_location(ast.If(test=val.test, body=[a], orelse=[b]), st))
+            else:
+                out.append(st)
+        return out
+
+    fn.body = do_block(fn.body)
+    ast.fix_missing_locations(fn)
+    return _set_parents(fn)
+
+
+def expand_starstar_dicts(fn):
+    """in place: f(**{'k': v, ...}) and f(**name) with `name = {'k': v, ...}` (single binding, constant string keys,
+    no later mutation) -> f(k=v, ...)"""
+    binds = {}
+    muts = set()
+    for st in ast.walk(fn):
+        if isinstance(st, ast.Assign) and len(st.targets) == 1 and isinstance(st.targets[0], ast.Name) and isinstance(st.value, ast.Dict):
+            binds.setdefault(st.targets[0].id, []).append(st.value)
+        if isinstance(st, ast.Subscript) and isinstance(st.ctx, (ast.Store, ast.Del)) and isinstance(st.value, ast.Name):
+            muts.add(st.value.id)
+        if isinstance(st, ast.Call) and isinstance(st.func, ast.Attribute) and st.func.attr in ("update", "pop", "setdefault", "clear") and isinstance(st.func.value, ast.Name):
+            muts.add(st.func.value.id)
+
+    class T(ast.NodeTransformer):
+        def visit_Call(self, node):
+            self.generic_visit(node)
+            new_kw = []
+            for k in node.keywords:
+                d = None
+                if k.arg is None:
+                    if isinstance(k.value, ast.Dict):
+                        d = k.value
+                    elif isinstance(k.value, ast.Name) and len(binds.get(k.value.id, [])) == 1 and k.value.id not in muts:
+                        d = binds[k.value.id][0]
+                    elif isinstance(k.value, ast.Call) and isinstance(k.value.func, ast.Name) and k.value.func.id == "dict" and not k.value.args:
+                        new_kw.extend(k.value.keywords)
+                        continue
+                if d is not None and all(isinstance(x, ast.Constant) and isinstance(x.value, str) for x in d.keys):
+                    new_kw.extend(ast.keyword(arg=x.value, value=v) for x, v in zip(d.keys, d.values))
+                else:
+                    new_kw.append(k)
+            node.keywords = new_kw
+            return node
+
+    T().visit(fn)
+    ast.fix_missing_locations(fn)
+    return _set_parents(fn)
+
+
 def canonical(fn, resolver=None, keep=None, depth=2):
     new = inline(fn, resolver, depth, keep) if resolver is not None else copy_fn(fn)
-    return loops_to_comprehensions(new)
+    new = loops_to_comprehensions(new)
+    new = ifexp_assignments_to_if(new)
+    return expand_starstar_dicts(new)
